@@ -144,9 +144,12 @@ def sweep(ctx, n):
                     c, rad, rot = np.array([3.0, 0.5, 0.2]), nps.uniform(0.2, 1.0), R.random(rng=nps)
                     expect, ng = 0.0, 200
                 else:
-                    v = np.array([(1, 1, 0), (-1, 1, 0), (-1, -1, 0), (1, -1, 0), (1, 1, 0)], float) * nps.uniform(0.8, 1.5)
+                    # a square loop in ordinary, nanometre and kilometre numbers, and given by vertices far from the object's origin
+                    lsc = rng.choice([1.0, 1.0, 1e-9, 1e-6, 1e3])
+                    off = np.array([rng.choice([0.0, 0.0, 300.0, -5000.0]) * lsc, 0.0, 0.0])
+                    v = np.array([(1, 1, 0), (-1, 1, 0), (-1, -1, 0), (1, -1, 0), (1, 1, 0)], float) * nps.uniform(0.8, 1.5) * lsc + off
                     src = magpy.current.Polyline(vertices=v, current=nps.uniform(-3, 3))
-                    c, rad, rot = np.array([v[0, 0], 0.0, 0.0]), nps.uniform(0.2, 0.6), R.from_euler("x", 90, degrees=True)
+                    c, rad, rot = np.array([v[0, 0], 0.0, 0.0]), nps.uniform(0.2, 0.6) * lsc, R.from_euler("x", 90, degrees=True)
                     expect, ng = src.current, 200
                 tot, mag = circulation(lambda p: src.getH(p), c, rad, rot, ng)
                 if kind in ("circ-loop-linked", "circ-polyloop"):
